@@ -186,6 +186,26 @@ def execute(plan: dict[str, Any]) -> dict[str, Any]:
                 "detail": f"history {hist}: importing chartparse.{f['module']} ({f['phase']}, "
                           f"step {f['step']}) raised {f['type']}: {f['msg']}"})
         else:
+            interrupted = bool(plan.get("fault")) and bool((got.get("fault") or {}).get("fired"))
+            if interrupted and not (got.get("fault") or {}).get("package_survived"):
+                # the interrupt hit while the package's own __init__ was running: the interpreter
+                # discards the package object and keeps finished sub-modules as orphans - every
+                # Python package whose __init__ imports sub-modules behaves so.  Not judged.
+                return {"violations": [], "digest": "package-discarded", "evals": 1, "nontrivial": [],
+                        "sub_batch": plan["kind"], "ops": len(plan["imports"]),
+                        "discarded": {"interrupt-discarded-the-package-object": 1},
+                        "faults_fired": {"import_interrupted": 1},
+                        "faults_configured": {"import_interrupted": 1}}
+            if interrupted:
+                # After an interrupted import the interpreter itself may leave the PACKAGE object
+                # without attributes for sub-modules that had already finished (any package whose
+                # __init__ imports sub-modules behaves so): the package's own row and what an
+                # 'import a.b' statement finds on it are not judged in these histories.  Judged:
+                # every later import succeeds, no module keeps an object of a discarded module
+                # (identity), the other modules' names, the smoke parse.
+                got = {**got, "misbound": [],
+                       "names": {k: v for k, v in got["names"].items() if k != "chartparse"}}
+                canon = {**canon, "names": {k: v for k, v in canon["names"].items() if k != "chartparse"}}
             for mb in (got.get("misbound") or [])[:1]:
                 violations.append({
                     "sig": f"C20/import-bound-wrong-object/{mb['module']}/{mb['form']}",
